@@ -79,6 +79,17 @@ func (w *World) errValueConsumed(e, root ssa.Value, opts errOpts, seen map[ssa.V
 		case *ssa.Return:
 			for _, res := range x.Results {
 				if res == e && isErrorType(res.Type()) {
+					// a return on the side of a nil test where the error IS nil forwards nothing
+					// (`if err == nil { return n, err }` returns success and lets the failure fall through)
+					if knownNilAt(e, x.Block()) {
+						reasons = append(reasons, "returned at "+w.instrPos(x)+" only where it is known to be nil")
+						continue
+					}
+					if hasNilTest(e) {
+						// the error is tested: whether EVERY way from the failing side returns it
+						// is decided by the path analysis below, not by this one return
+						continue
+					}
 					return true, "forwarded by return at " + w.instrPos(x)
 				}
 			}
@@ -387,6 +398,20 @@ func (w *World) pathsSurface(from, to *ssa.BasicBlock, e ssa.Value, opts errOpts
 					}
 				}
 			}
+			// the decoder's textual end-of-input test: strings.Contains(err.Error(), "EOF")
+			// (a value cut short by the end of input is returned as far as it was read)
+			if opts.allowEOFSentinel {
+				cond, neg := t.Cond, false
+				if u, ok := cond.(*ssa.UnOp); ok && u.Op == token.NOT {
+					cond, neg = u.X, true
+				}
+				if textualEOFTest(cond, e, phiRes) {
+					if neg {
+						return walk(b, b.Succs[0]) // !contains: a real failure continues to be examined
+					}
+					return walk(b, b.Succs[1])
+				}
+			}
 			for _, s := range b.Succs {
 				if !walk(b, s) {
 					return false
@@ -507,3 +532,106 @@ func (w *World) callSitesIn(fn *ssa.Function) []callSite {
 }
 
 func (cs callSite) key() string { return fmt.Sprintf("call#%d %s", cs.ordinal, cs.callee) }
+
+// knownNilAt: block b is dominated by the nil side of a comparison of e with nil.
+func knownNilAt(e ssa.Value, b *ssa.BasicBlock) bool {
+	refs := e.Referrers()
+	if refs == nil {
+		return false
+	}
+	for _, r := range *refs {
+		bo, ok := r.(*ssa.BinOp)
+		if !ok || (bo.Op != token.EQL && bo.Op != token.NEQ) {
+			continue
+		}
+		other := bo.Y
+		if other == e {
+			other = bo.X
+		}
+		if !isNilConst(other) {
+			continue
+		}
+		for _, rr := range *bo.Referrers() {
+			iff, ok := rr.(*ssa.If)
+			if !ok {
+				continue
+			}
+			nilSide := iff.Block().Succs[1]
+			if bo.Op == token.EQL {
+				nilSide = iff.Block().Succs[0]
+			}
+			if nilSide == iff.Block().Succs[0] && nilSide == iff.Block().Succs[1] {
+				continue
+			}
+			single := true
+			for _, p := range nilSide.Preds {
+				if p != iff.Block() && !nilSide.Dominates(p) {
+					single = false
+				}
+			}
+			if single && (nilSide == b || nilSide.Dominates(b)) {
+				return true
+			}
+		}
+	}
+	return false
+}
+
+// hasNilTest: e is compared with nil somewhere (directly or through φ-free uses).
+func hasNilTest(e ssa.Value) bool {
+	refs := e.Referrers()
+	if refs == nil {
+		return false
+	}
+	for _, r := range *refs {
+		if bo, ok := r.(*ssa.BinOp); ok && (bo.Op == token.EQL || bo.Op == token.NEQ) {
+			other := bo.Y
+			if other == e {
+				other = bo.X
+			}
+			if isNilConst(other) {
+				for _, rr := range *bo.Referrers() {
+					if _, ok := rr.(*ssa.If); ok {
+						return true
+					}
+				}
+			}
+		}
+	}
+	return false
+}
+
+// textualEOFTest: cond is strings.Contains(e.Error(), <constant mentioning EOF>),
+// directly or through an in-package predicate of the error that does just that.
+func textualEOFTest(cond ssa.Value, e ssa.Value, phiRes map[*ssa.Phi]ssa.Value) bool {
+	c, ok := cond.(*ssa.Call)
+	if !ok {
+		return false
+	}
+	sc := c.Call.StaticCallee()
+	if sc == nil {
+		return false
+	}
+	if qualifiedFnName(sc) == "strings.Contains" && len(c.Call.Args) == 2 {
+		k, isC := c.Call.Args[1].(*ssa.Const)
+		if !isC || k.Value == nil || !strings.Contains(k.Value.ExactString(), "EOF") {
+			return false
+		}
+		ec, ok := c.Call.Args[0].(*ssa.Call)
+		if !ok || !ec.Call.IsInvoke() || ec.Call.Method.Name() != "Error" {
+			return false
+		}
+		return resolvePhi(ec.Call.Value, phiRes) == e || ec.Call.Value == e
+	}
+	// a helper func(error) bool whose only returns are that test (or err != nil && that test)
+	if sc.Blocks != nil && len(sc.Params) == 1 && isErrorType(sc.Params[0].Type()) && len(c.Call.Args) == 1 && (resolvePhi(c.Call.Args[0], phiRes) == e || c.Call.Args[0] == e) {
+		for _, b := range sc.Blocks {
+			for _, in := range b.Instrs {
+				if ic, ok := in.(*ssa.Call); ok && textualEOFTest(ic, sc.Params[0], nil) {
+					return true
+				}
+			}
+		}
+	}
+	return false
+}
